@@ -135,28 +135,26 @@ package keeper
 //@ representation tr_flag_nonce_rep: forall l int :: {trFlagNonce[l]} trFlagNonce[l] == kvHas[kvId(l, evmTransientKey())][b1(9)]
 //@ representation tr_flag_nobasefee_rep: forall l int :: {trFlagNoBaseFee[l]} trFlagNoBaseFee[l] == kvHas[kvId(l, evmTransientKey())][b1(10)]
 //@ representation tr_flag_paid_rep: forall l int :: {trFlagPaid[l]} trFlagPaid[l] == kvHas[kvId(l, evmTransientKey())][b1(11)]
-// Store invariant (assumed at entry like the representation; every writer re-establishes it: C13.tr_store_wf): present
-// counter / gas / log-count entries are 8 bytes long; a present flag entry is the one byte [1].
+// Store invariant: present counter / gas / log-count entries are 8 bytes long; a present flag entry is the one byte [1].
+// ASSUMED at the entry of every accessor for its own layer (`trusted requires` through trReader / trWriter — not a global axiom:
+// four quantified store facts in the background of every obligation of every function that touches ANY KV store cost unrelated
+// cover / canary queries their models) and RE-ESTABLISHED by every writer (ensures *.tr_store_wf).
 //@ ghost macro trStoreWf(l int) bool = (kvHas[kvId(l, evmTransientKey())][b1(5)] ==> blen(kvVal[kvId(l, evmTransientKey())][b1(5)]) == 8) && (forall i int :: {kvHas[kvId(l, evmTransientKey())][bcat(b1(6), be64(i))]} kvHas[kvId(l, evmTransientKey())][bcat(b1(6), be64(i))] ==> blen(kvVal[kvId(l, evmTransientKey())][bcat(b1(6), be64(i))]) == 8) && (forall i int :: {kvHas[kvId(l, evmTransientKey())][bcat(b1(7), be64(i))]} kvHas[kvId(l, evmTransientKey())][bcat(b1(7), be64(i))] ==> blen(kvVal[kvId(l, evmTransientKey())][bcat(b1(7), be64(i))]) == 8) && (kvHas[kvId(l, evmTransientKey())][b1(9)] ==> kvVal[kvId(l, evmTransientKey())][b1(9)] == b1(1)) && (kvHas[kvId(l, evmTransientKey())][b1(10)] ==> kvVal[kvId(l, evmTransientKey())][b1(10)] == b1(1)) && (kvHas[kvId(l, evmTransientKey())][b1(11)] ==> kvVal[kvId(l, evmTransientKey())][b1(11)] == b1(1))
-//@ axiom tr_store_wf_count: forall l int :: {kvHas[kvId(l, evmTransientKey())][b1(5)]} kvHas[kvId(l, evmTransientKey())][b1(5)] ==> blen(kvVal[kvId(l, evmTransientKey())][b1(5)]) == 8
-//@ axiom tr_store_wf_gas: forall l int, i int :: {kvHas[kvId(l, evmTransientKey())][bcat(b1(6), be64(i))]} kvHas[kvId(l, evmTransientKey())][bcat(b1(6), be64(i))] ==> blen(kvVal[kvId(l, evmTransientKey())][bcat(b1(6), be64(i))]) == 8
-//@ axiom tr_store_wf_logs: forall l int, i int :: {kvHas[kvId(l, evmTransientKey())][bcat(b1(7), be64(i))]} kvHas[kvId(l, evmTransientKey())][bcat(b1(7), be64(i))] ==> blen(kvVal[kvId(l, evmTransientKey())][bcat(b1(7), be64(i))]) == 8
-//@ axiom tr_store_wf_flags: forall l int :: {kvId(l, evmTransientKey())} (kvHas[kvId(l, evmTransientKey())][b1(9)] ==> kvVal[kvId(l, evmTransientKey())][b1(9)] == b1(1)) && (kvHas[kvId(l, evmTransientKey())][b1(10)] ==> kvVal[kvId(l, evmTransientKey())][b1(10)] == b1(1)) && (kvHas[kvId(l, evmTransientKey())][b1(11)] ==> kvVal[kvId(l, evmTransientKey())][b1(11)] == b1(1))
 // what the verified bodies assume about their environment (trusted requires): readers — the keeper is the wired one; writers —
 // also the background facts of prelude/4b_tr_transient.spec (layers are distinct stores, be64 codec, prefixed keys).
-//@ ghost macro trReader(tk ref) bool = tk == evmTransientKey()
-//@ ghost macro trWriter(tk ref) bool = tk == evmTransientKey() && kvLayersDistinct(evmTransientKey()) && be64Codec() && prefixedKeys()
+//@ ghost macro trReader(tk ref, l int) bool = tk == evmTransientKey() && trStoreWf(l)
+//@ ghost macro trWriter(tk ref, l int) bool = tk == evmTransientKey() && trStoreWf(l) && kvLayersDistinct(evmTransientKey()) && be64Codec() && prefixedKeys()
 
 // Store-backed accessors.
 //@ func (k Keeper) GetRawTxCountTransient(ctx sdk.Context) uint64
 //@   deterministic[C01.no_node_local_source]
-//@   trusted requires trReader(payload(k.transientKey))
+//@   trusted requires trReader(payload(k.transientKey), layer(ctx))
 //@   modifies nothing
 //@   ensures[C13.tr_count_read] result == trCount[layer(ctx)]
 //@   panics[C13.tr_count_read_never_panics] never
 //@ func (k Keeper) IncreaseTxCountTransient(ctx sdk.Context)
 //@   deterministic[C01.no_node_local_source]
-//@   trusted requires trWriter(payload(k.transientKey))
+//@   trusted requires trWriter(payload(k.transientKey), layer(ctx))
 //@   rederives
 //@   modifies trCount[layer(ctx)]
 //@   hidden modifies kvHas[kvId(layer(ctx), payload(k.transientKey))], kvVal[kvId(layer(ctx), payload(k.transientKey))]
@@ -165,25 +163,25 @@ package keeper
 //@   panics[C13.tr_count_increase_never_panics] never
 //@ func (k Keeper) GetGasUsedForTdxIndexTransient(ctx sdk.Context, txIdx uint64) uint64
 //@   deterministic[C01.no_node_local_source]
-//@   trusted requires trReader(payload(k.transientKey))
+//@   trusted requires trReader(payload(k.transientKey), layer(ctx))
 //@   modifies nothing
 //@   ensures[C05.tr_gas_read,C13.tr_gas_read] result == trGas[layer(ctx)][txIdx]
-//@   panics[C05.tr_gas_read_never_panics] never
+//@   panics[C05.tr_gas_read_never_panics,C13.tr_gas_read_never_panics] never
 //@ func (k Keeper) IsSenderPaidTxFeeInAnteHandle(ctx sdk.Context) bool
 //@   deterministic[C01.no_node_local_source]
-//@   trusted requires trReader(payload(k.transientKey)) && prefixedKeys()
+//@   trusted requires trReader(payload(k.transientKey), layer(ctx)) && prefixedKeys()
 //@   modifies nothing
 //@   ensures[C04.tr_flag_paid_read,C05.tr_flag_paid_read] result == trFlagPaid[layer(ctx)]
-//@   panics[C04.tr_flag_paid_read_never_panics] never
+//@   panics[C04.tr_flag_paid_read_never_panics,C05.tr_flag_paid_read_never_panics] never
 //@ func (k Keeper) IsSenderNonceIncreasedByAnteHandle(ctx sdk.Context) bool
 //@   deterministic[C01.no_node_local_source]
-//@   trusted requires trReader(payload(k.transientKey)) && prefixedKeys()
+//@   trusted requires trReader(payload(k.transientKey), layer(ctx)) && prefixedKeys()
 //@   modifies nothing
 //@   ensures[C06.tr_flag_nonce_read] result == trFlagNonce[layer(ctx)]
 //@   panics[C06.tr_flag_nonce_read_never_panics] never
 //@ func (k Keeper) IsNoBaseFeeEnabled(ctx sdk.Context) bool
 //@   deterministic[C01.no_node_local_source]
-//@   trusted requires trReader(payload(k.transientKey)) && prefixedKeys()
+//@   trusted requires trReader(payload(k.transientKey), layer(ctx)) && prefixedKeys()
 //@   modifies nothing
 //@   ensures[C05.tr_flag_nobasefee_read] result == trFlagNoBaseFee[layer(ctx)]
 //@   panics[C05.tr_flag_nobasefee_read_never_panics] never
@@ -196,16 +194,16 @@ package keeper
 
 //@ func (k Keeper) SetGasUsedForCurrentTxTransient(ctx sdk.Context, gas uint64)
 //@   deterministic[C01.no_node_local_source]
-//@   trusted requires trWriter(payload(k.transientKey))
+//@   trusted requires trWriter(payload(k.transientKey), layer(ctx))
 //@   rederives
 //@   modifies trGas[layer(ctx)]
 //@   hidden modifies kvHas[kvId(layer(ctx), payload(k.transientKey))], kvVal[kvId(layer(ctx), payload(k.transientKey))]
 //@   ensures[C05.tr_gas_written,C13.tr_gas_written] trGas[layer(ctx)] == old(trGas[layer(ctx)])[max(1, trCount[layer(ctx)]) - 1 := gas]
 //@   ensures[C05.tr_store_wf,C13.tr_store_wf] trStoreWf(layer(ctx))
-//@   panics[C05.tr_gas_written_never_panics] never
+//@   panics[C05.tr_gas_written_never_panics,C13.tr_gas_written_never_panics] never
 //@ func (k Keeper) SetLogCountForCurrentTxTransient(ctx sdk.Context, count uint64)
 //@   deterministic[C01.no_node_local_source]
-//@   trusted requires trWriter(payload(k.transientKey))
+//@   trusted requires trWriter(payload(k.transientKey), layer(ctx))
 //@   rederives
 //@   modifies trLogs[layer(ctx)]
 //@   hidden modifies kvHas[kvId(layer(ctx), payload(k.transientKey))], kvVal[kvId(layer(ctx), payload(k.transientKey))]
@@ -216,7 +214,7 @@ package keeper
 // non-empty output of Receipt.MarshalBinary)
 //@ func (k Keeper) SetTxReceiptForCurrentTxTransient(ctx sdk.Context, receiptBz []byte)
 //@   deterministic[C01.no_node_local_source]
-//@   trusted requires trWriter(payload(k.transientKey))
+//@   trusted requires trWriter(payload(k.transientKey), layer(ctx))
 //@   rederives
 //@   modifies trReceipt[layer(ctx)], trHasReceipt[layer(ctx)]
 //@   hidden modifies kvHas[kvId(layer(ctx), payload(k.transientKey))], kvVal[kvId(layer(ctx), payload(k.transientKey))]
@@ -336,10 +334,13 @@ package keeper
 //@   panics any
 
 //@ func (k Keeper) GetCumulativeLogCountTransient(ctx sdk.Context, exceptCurrent bool) uint64
-//@   assumed
+//@   deterministic[C01.no_node_local_source]
+//@   trusted requires trReader(payload(k.transientKey), layer(ctx))
 //@   modifies nothing
-//@   ensures result == (sumTo(trLogs[layer(ctx)], max(1, trCount[layer(ctx)])) - (exceptCurrent ? trLogs[layer(ctx)][max(1, trCount[layer(ctx)]) - 1] : 0)) % pow2(64)
-//@   panics never
+//@   ensures[C13.tr_logs_cumulative] result == (sumTo(trLogs[layer(ctx)], max(1, trCount[layer(ctx)])) - (exceptCurrent ? trLogs[layer(ctx)][max(1, trCount[layer(ctx)]) - 1] : 0)) % pow2(64)
+//@   panics[C13.tr_logs_cumulative_never_panics] never
+//@ loop 1
+//@   invariant i <= txCount && txCount == max(1, trCount[layer(ctx)]) && total == (sumTo(trLogs[layer(ctx)], i) - ((exceptCurrent && i == txCount) ? trLogs[layer(ctx)][txCount - 1] : 0)) % pow2(64)
 
 // ---------------------------------------------------------------------------------------------
 // params.go / keeper.go — accessors
@@ -371,7 +372,7 @@ package keeper
 
 //@ func (k Keeper) SetFlagSenderNonceIncreasedByAnteHandle(ctx sdk.Context, increased bool)
 //@   deterministic[C01.no_node_local_source]
-//@   trusted requires trWriter(payload(k.transientKey))
+//@   trusted requires trWriter(payload(k.transientKey), layer(ctx))
 //@   rederives
 //@   modifies trFlagNonce[layer(ctx)]
 //@   hidden modifies kvHas[kvId(layer(ctx), payload(k.transientKey))], kvVal[kvId(layer(ctx), payload(k.transientKey))]
@@ -380,18 +381,18 @@ package keeper
 //@   panics[C06.tr_flag_nonce_written_never_panics] never
 //@ func (k Keeper) SetFlagSenderPaidTxFeeInAnteHandle(ctx sdk.Context, paid bool)
 //@   deterministic[C01.no_node_local_source]
-//@   trusted requires trWriter(payload(k.transientKey))
+//@   trusted requires trWriter(payload(k.transientKey), layer(ctx))
 //@   rederives
 //@   modifies trFlagPaid[layer(ctx)]
 //@   hidden modifies kvHas[kvId(layer(ctx), payload(k.transientKey))], kvVal[kvId(layer(ctx), payload(k.transientKey))]
 //@   ensures[C04.tr_flag_paid_written,C05.tr_flag_paid_written] trFlagPaid[layer(ctx)] == paid
 //@   ensures[C04.tr_store_wf] trStoreWf(layer(ctx))
-//@   panics[C04.tr_flag_paid_written_never_panics] never
+//@   panics[C04.tr_flag_paid_written_never_panics,C05.tr_flag_paid_written_never_panics] never
 // (helper tr) the third flag setter (no caller outside tests): with it EVERY function that touches the module's transient store
 // is a verified accessor.
 //@ func (k Keeper) SetFlagEnableNoBaseFee(ctx sdk.Context, enable bool)
 //@   deterministic[C01.no_node_local_source]
-//@   trusted requires trWriter(payload(k.transientKey))
+//@   trusted requires trWriter(payload(k.transientKey), layer(ctx))
 //@   rederives
 //@   modifies trFlagNoBaseFee[layer(ctx)]
 //@   hidden modifies kvHas[kvId(layer(ctx), payload(k.transientKey))], kvVal[kvId(layer(ctx), payload(k.transientKey))]
